@@ -173,6 +173,14 @@ def optStr? (t : String) : Option (Option String) :=
 
 def reply (m s dev : String) : String := m ++ " " ++ s ++ " " ++ dev
 
+/-- (levels, raise) pairs of a `life` request -/
+def lifeScenarios : List String → Option (List Scenario)
+  | [] => some []
+  | ls :: r :: rest => do
+    let lvh ← levels? ls; let raise ← raise? r; let more ← lifeScenarios rest
+    pure ({ levels := lvh.map (·.1), pre := [], raise := raise } :: more)
+  | _ => none
+
 def handle (ws : List String) : String :=
   match ws with
   | ["pos", s, i] => match src? s, int? i with
@@ -209,6 +217,21 @@ def handle (ws : List String) : String :=
       let sp := Spec.errClass kind ++ "|" ++ flag true ++ "|" ++ framesOut (Spec.trace files limit sc)
       reply m sp (traceDev sc kind)
     | _, _, _, _, _, _, _ => "bad-op"
+  | "life" :: _mode :: lim :: s :: rest =>
+    -- k errors created one after the other on one runtime (situations `rest` = levels, raise, …) in the program `s`;
+    -- every trace is read after ALL of them exist
+    match int? lim, src? s, lifeScenarios rest with
+    | some limit, some src, some scs =>
+      let files : List FileEnt := [{ name := "", src := src }]
+      let store := createErrors limit [] scs
+      let m := "#".intercalate ((List.range scs.length).map (fun i =>
+        match readTrace store i with
+        | some fs => framesOut (fs.map (location files))
+        | none => "missing"))
+      let sp := "#".intercalate ((Spec.tracesLater files limit scs).map framesOut)
+      let dev := join ((scs.map Spec.traceDevs).flatten.eraseDups)
+      reply m sp dev
+    | _, _, _ => "bad-op"
   | ["uthrow", _via, kind, txtAt] =>
     -- the text token is followed by `@` + the JS expression that builds the thrown value (for the harness only)
     let txt := (txtAt.splitOn "@").headD "-"
